@@ -5,17 +5,19 @@
 # worktree WITH the patch applied (SLT_REPO: /repo itself is never touched) and print CAUGHT / MISSED.
 set -u
 rd="$1"; shift
-wt="$rd/confirm"
+# SEED_LANE=k: several batches side by side (own confirm worktree, own harness build and output directory)
+lane="${SEED_LANE:-}"
+wt="$rd/confirm$lane"
 export CARGO_NET_OFFLINE=true RUST_BACKTRACE=0
 [ -d "$wt" ] || git -C /repo worktree add -q --detach "$wt" HEAD
 for id in "$@"; do
   seed="$rd/out/$id"; pid="${id%%_*}"
   echo "=== $id"
   if [ ! -f "$seed/patch.diff" ] || [ ! -f "$seed/demo/run.sh" ]; then echo "RESULT incomplete-delivery"; continue; fi
-  res=$(bash /verif/tools/confirm_seed.sh "$seed" "$wt" 2>&1); echo "$res"
+  res=$(CONFIRM_TAG="$lane" bash /verif/tools/confirm_seed.sh "$seed" "$wt" 2>&1); echo "$res"
   if ! echo "$res" | grep -q "RESULT confirmed"; then continue; fi
   ( cd "$wt" && git checkout -q -- . && git apply "$seed/patch.diff" )
-  out=$(cd /verif && SLT_REPO="$wt" python3 tools/check.py "$pid" --tier quick 2>&1 | grep -E "VIOLATION|ERROR|^\[" | cut -c1-300)
+  out=$(cd /verif && SLT_REPO="$wt" SLT_ALT_TAG="$lane" python3 tools/check.py "$pid" --tier quick 2>&1 | grep -E "VIOLATION|ERROR|^\[" | cut -c1-300)
   ( cd "$wt" && git checkout -q -- . )
   echo "$out"
   if echo "$out" | grep -q "^VIOLATION" && ! echo "$out" | grep -q "machinery"; then echo "TRIAL $id CAUGHT"; else echo "TRIAL $id MISSED"; fi
